@@ -13,7 +13,7 @@ DEFAULT_WEIGHTS = {
     'wait': 10, 'setflag': 5, 'settracked': 5, 'lock': 4, 'put': 4, 'get': 3, 'iter': 2,
     'close': 1, 'borrow': 4, 'resource': 2, 'transfer': 3, 'scope': 6, 'until': 6,
     'spawn': 2, 'cancel': 3, 'await_task': 3, 'raise': 1, 'ticker': 2, 'collect': 2,
-    'first': 2, 'guard': 1, 'graceful': 1, 'watch': 1.5,
+    'first': 2, 'guard': 1, 'graceful': 1, 'watch': 1.5, 'nested': 0,
 }
 
 
@@ -284,6 +284,10 @@ class Gen:
             # some other block of the program: may have ended (refused), may be running
             step['scope'] = rng.choice(self.scope_ids)
         return step
+
+    def g_nested(self, depth):
+        return {'op': 'nested', 'd': self.rng.choice([0.5, 1, 3]),
+                'start': self.rng.choice([0, 100, -7])}
 
     def g_cancel(self, depth):
         rng = self.rng
